@@ -75,9 +75,33 @@ LEAN_SCHEMAS = {"exp_pos", "log_exp", "exp_log", "sin2_cos2", "sqrt_def", "arcsi
                 "tanh_bound", "exp_gt_1_plus_x"}
 
 
+def _bound_exp(formulas):
+    """is uf_exp applied to a term with a bound variable somewhere?"""
+    memo, seen = {}, set()
+
+    def walk(e):
+        if e.get_id() in seen:
+            return False
+        seen.add(e.get_id())
+        if z3.is_quantifier(e):
+            return walk(e.body())
+        if z3.is_app(e):
+            d = e.decl()
+            if d.kind() == z3.Z3_OP_UNINTERPRETED and d.name() == "uf_exp" and _has_var(e, memo):
+                return True
+            return any(walk(c) for c in e.children())
+        return False
+    return any(walk(f) for f in formulas)
+
+
 def analytic_instances(formulas, rounds=2, max_pairs=40, lean=False):
     """Instances of analytic axioms for the UF applications occurring in formulas."""
     out = []
+    if _bound_exp(formulas):
+        # exp of a term with a bound variable (weights under a quantifier): positivity as a quantified axiom
+        t = z3.Real("t!exp")
+        out.append(z3.ForAll([t], UF["exp"](t) > 0))
+        USED_AXIOMS.add("exp_pos(forall)")
     done = set()
     exp, log, sin, cos, sqrt, tanh = UF["exp"], UF["log"], UF["sin"], UF["cos"], UF["sqrt"], UF["tanh"]
     asin, acos = UF["arcsin"], UF["arccos"]
